@@ -18,14 +18,18 @@ from frg2c.emit import Extractor, parse_contract_file, run_probe
 
 REPO = os.environ.get('FRGV_REPO', '/repo')
 BUILD = os.path.join(ROOT, 'build')
-EVID = os.path.join(ROOT, 'evidence')
-REPLAYS = os.path.join(ROOT, 'replays')
+EVID = os.path.join(ROOT, 'evidence') if REPO == '/repo' else os.path.join(ROOT, 'build', 'evidence_scratch')
+REPLAYS = os.path.join(ROOT, 'replays') if REPO == '/repo' else os.path.join(ROOT, 'build', 'replays_scratch')
 KF_FILE = os.path.join(ROOT, 'KNOWN_FINDINGS.txt')
 JOBS = int(os.environ.get('FRGV_JOBS', '16'))
 MEM_KB = int(os.environ.get('FRGV_MEM_KB', str(12 * 1024 * 1024)))
 
 CBMC_CHECKS = ['--bounds-check', '--pointer-check', '--pointer-overflow-check', '--signed-overflow-check',
-               '--undefined-shift-check', '--div-by-zero-check', '--pointer-primitive-check']
+               '--undefined-shift-check', '--div-by-zero-check', '--pointer-primitive-check',
+               # ASSUMED (every unit): allocation does not fail. CBMC 6 lets malloc return NULL by default, which turns every
+               # allocated pointer into (fail ? NULL : &object) and with it every later pointer comparison into a solver
+               # question; frigg's allocator users do not handle null either (the stubs assume non-null).
+               '--no-malloc-may-fail']
 
 class ToolFailure(Exception):
     pass
@@ -127,7 +131,7 @@ def extract_unit(u, bdir, tier='quick'):
                        workdir=bdir, clang_flags=u.get('clang_flags', []))
         contracts = os.path.join(u['dir'], u.get('contracts', 'contracts.c'))
         text = ex.lower(u['roots'], parse_contract_file(contracts), exclude=u.get('exclude', ()),
-                        extern=u.get('extern', ()))
+                        extern=u.get('extern', ()), opts=u.get('lower_opts'))
         text = run_probe(ex, text, inst, [os.path.join(REPO, 'include'), os.path.join(ROOT, 'stubs')], bdir,
                          clang_flags=u.get('clang_flags', []))
     except ExtractError as e:
@@ -182,6 +186,8 @@ def extract_unit(u, bdir, tier='quick'):
     return meta
 
 # ------------------------------------------------------------------------------------------ cbmc
+HEAVY_MEM_KB = int(os.environ.get('FRGV_HEAVY_MEM_KB', str(44 * 1024 * 1024)))
+
 def run(cmd, timeout, log=None, mem_kb=None):
     pre = 'ulimit -v %d; ' % (mem_kb or MEM_KB)
     t0 = time.time()
@@ -272,6 +278,15 @@ def run_obligation1(u, ob, bdir, trace=False):
     cb = ['cbmc', target, '--json-ui'] + CBMC_CHECKS + ob['flags']
     if ob.get('unwind') is not None:
         cb += ['--unwind', str(ob['unwind']), '--unwinding-assertions']
+        if ob.get('recursion') is not None:
+            # tighter bound for the recursive red-black fix-ups (still guarded by unwinding assertions)
+            try:
+                fns = json.load(open(os.path.join(bdir, 'meta.json')))['functions']
+            except Exception:
+                fns = {}
+            rs = ['%s:%d' % (f, ob['recursion']) for f in fns if f.endswith(('_fix_insert', '_fix_remove')) or f in ob.get('recursive_fns', ())]
+            if rs:
+                cb += ['--unwindset', ','.join(rs)]
     if ob.get('object_bits'):
         cb += ['--object-bits', str(ob['object_bits'])]
     if ob.get('leak'):
@@ -280,7 +295,7 @@ def run_obligation1(u, ob, bdir, trace=False):
         cb += ['--trace']
     res['checker_cmd'] = ' '.join(inst[:1] + [x for x in inst[1:] if not x.endswith('.gb')]) + ' && ' + \
         ' '.join(x for x in cb if not x.endswith('.gb'))
-    rc, out, err, dt = run(cb, ob['timeout'], log)
+    rc, out, err, dt = run(cb, ob['timeout'], log, mem_kb=HEAVY_MEM_KB if ob.get('heavy') else None)
     res['solver_s'] = round(dt, 2)
     if err == 'TIMEOUT':
         res['status'] = 'timeout'
@@ -337,6 +352,10 @@ def run_obligation1(u, ob, bdir, trace=False):
     res['obligations'] = total
     res['failed'] = failed
     res['kinds'] = sorted(kinds)
+    if any(r.get('status') == 'ERROR' for r in results):
+        res['status'] = 'oom'
+        res['detail'] = 'solver error (out of memory) while deciding some properties: ' + text_msgs[-300:]
+        return res
     if not canary_seen:
         res['detail'] = 'harness has no reachability canary'
         return res
@@ -402,6 +421,17 @@ def load_known_findings():
                 fixed.append(ln)
     return known, fixed
 
+def kf_matches(entry, r):
+    """a listed finding covers a failing run only if it is the listed obligation and every failed obligation in it carries the
+    listed text: any other failure of the same run is a violation"""
+    if entry.get('obligation') and entry['obligation'] != r['id'].split('.', 1)[-1] and entry['obligation'] != r['id']:
+        return False
+    m = entry.get('match')
+    if m:
+        m = m.replace('_', ' ')
+        return all(m in f['description'] for f in r['failed'])
+    return True
+
 # ------------------------------------------------------------------------------------------ check
 def props_table():
     t = {}
@@ -441,6 +471,8 @@ def check(prop, tier, only=None):
         obs = [o for o in unit_obligations(u, tier) if prop in o.get('serves', [])]
         if only:
             obs = [o for o in obs if re.search(only, o['id'])]
+            global EVID, REPLAYS          # a partial run is a debugging aid: its evidence does not replace the full one
+            EVID = os.path.join(ROOT, 'build', 'evidence_scratch'); REPLAYS = os.path.join(ROOT, 'build', 'replays_scratch')
         if obs:
             units.append((u, obs))
     if not units:
@@ -463,9 +495,15 @@ def check(prop, tier, only=None):
             futs = []
             for u, obs in units:
                 for ob in sorted(obs, key=lambda o: -o.get('cost', 1)):
-                    futs.append(ex.submit(run_obligation, u, ob, bdirs[u['name']]))
+                    if not ob.get('heavy'):
+                        futs.append(ex.submit(run_obligation, u, ob, bdirs[u['name']]))
             for f in futs:
                 results.append(f.result())
+        # memory-hungry obligations run one at a time with a larger memory limit
+        for u, obs in units:
+            for ob in obs:
+                if ob.get('heavy'):
+                    results.append(run_obligation(u, ob, bdirs[u['name']]))
     except ToolFailure as e:
         print('TOOL-FAILURE property=%s %s' % (prop, e))
         return 2
@@ -479,7 +517,7 @@ def check(prop, tier, only=None):
         if r['status'] != 'fail':
             continue
         kf = r.get('kf')
-        if kf and kf in known:
+        if kf and kf in known and kf_matches(known[kf], r):
             kf_lines.append('KNOWN-FINDING: property=%s %s (obligation %s: %s)' % (
                 prop, known[kf].get('what', kf).replace('_', ' '), r['id'], r['failed'][0]['description'][:120]))
             continue
